@@ -138,7 +138,14 @@ pub fn run_real(c: &LzmaCase, data: &[u8]) -> Obs {
 pub fn compare(c: &LzmaCase, e: &Expect, o: &Obs, check_consumed: bool) -> Vec<(String, String)> {
     let mut v: Vec<(String, String)> = vec![];
     if o.verdict == Verdict::Panic {
-        v.push(("panic".into(), format!("panic: {}", o.msg)));
+        // a panic is neither success nor an error value: it breaks the property that promises one of the two for this
+        // input - and no other (C07 owns every panic)
+        let under = match e.v {
+            Exp::Ok => "accept-valid".to_string(),
+            Exp::Err => format!("reject:{}", e.class),
+            Exp::Any => "open".to_string(),
+        };
+        v.push((format!("panic:{}", under), format!("panic: {}", o.msg)));
         return v;
     }
     match e.v {
@@ -146,7 +153,8 @@ pub fn compare(c: &LzmaCase, e: &Expect, o: &Obs, check_consumed: bool) -> Vec<(
             if o.verdict != Verdict::Ok {
                 v.push(("accept-valid".into(), format!("expected Ok ({}), got Err: {}", e.class, o.msg)));
             } else if o.out != e.out {
-                v.push(("exact-output".into(), format!(
+                let clause = if o.out.len() != e.out.len() { "output-length" } else { "exact-output" };
+                v.push((clause.into(), format!(
                     "output differs from what the format defines: expected {} bytes, got {} bytes (first difference at {})",
                     e.out.len(),
                     o.out.len(),
@@ -182,17 +190,29 @@ pub fn compare(c: &LzmaCase, e: &Expect, o: &Obs, check_consumed: bool) -> Vec<(
 /// Does the text of `prop` state the clause?
 pub fn owns_clause(prop: &str, clause: &str) -> bool {
     let is = |ps: &[&str]| ps.contains(&prop);
-    if clause == "panic" {
-        return true;
+    if let Some(under) = clause.strip_prefix("panic:") {
+        // C07 (totality) and C16 ("no sequence of calls panics") own every panic; any other property owns it when it
+        // promises an outcome for this input
+        return is(&["C07", "C16"]) || (under != "open" && owns_clause(prop, under));
     }
     if clause == "accept-valid" {
-        return is(&["C01", "C05", "C08", "C10", "C15", "C16"]);
+        // C08: "a caller-supplied size always overrides the header field", "decoding runs to the end marker";
+        // C10: "behaves exactly as without a limit" (judged against the unlimited run, see check_case)
+        return is(&["C01", "C05", "C08", "C10", "C15"]);
     }
     if clause == "exact-output" {
+        // (C08 speaks about the NUMBER of bytes produced: "output-length" below)
+        return is(&["C01", "C05", "C09", "C10"]);
+    }
+    if clause == "output-length" {
         return is(&["C01", "C05", "C08", "C09", "C10"]);
     }
     if clause == "consumed" {
-        return is(&["C11", "C08"]);
+        // (C08's own clause about input is the number of HEADER bytes, observed through LzmaParams::read_header)
+        return is(&["C11"]);
+    }
+    if clause == "header-bytes" {
+        return is(&["C08"]);
     }
     if clause == "sink-after-error" {
         return is(&["C09", "C12"]);
@@ -226,7 +246,7 @@ pub fn check_case(c: &LzmaCase, prop: &str, rep: &mut Report) -> bool {
     if let Some(sp) = &c.spec {
         let consistent = match (sp.res.as_str(), sp.why.as_str()) {
             ("ok", "clean-end-without-marker") => e.v == Exp::Any || e.v == Exp::Ok,
-            ("ok", _) => e.v == Exp::Ok && e.out == sp.out,
+            ("ok", _) => (e.v == Exp::Ok || e.class == "size-reached-coder-not-at-rest") && e.out == sp.out,
             ("err", "truncated") => true, // phantom symbols possible: byte level decides
             ("err", _) => e.v == Exp::Err,
             _ => false,
@@ -267,7 +287,23 @@ pub fn check_case(c: &LzmaCase, prop: &str, rep: &mut Report) -> bool {
     }
     if !skip_rest {
         for (clause, d) in compare(c, &e, &o, check_consumed) {
-            if owns_clause(prop, &clause) {
+            let mut mine = owns_clause(prop, &clause);
+            // C01 and C09 are about the one-shot and raw decoders (and LZMA2 / XZ for C09): what the incremental decoder
+            // does with the same bytes is C05's text
+            if mine && c.api == "stream" && ["C01", "C09"].contains(&prop) && !clause.starts_with("panic") {
+                mine = false;
+            }
+            // C10 is stated relative to the run WITHOUT a limit ("behaves exactly as without a limit"): a deviation
+            // from the format that the unlimited run shows as well is C01's, not C10's
+            if mine && prop == "C10" && c.memlimit.is_some() && ["accept-valid", "exact-output", "output-length"].contains(&clause.as_str()) {
+                let mut c0 = c.clone();
+                c0.memlimit = None;
+                let o0 = run_real(&c0, &data);
+                if o0.verdict == o.verdict && o0.out == o.out {
+                    mine = false;
+                }
+            }
+            if mine {
                 vs.push(d);
             } else {
                 rep.drift(format!("(clause '{}' of another property, seen while checking {}) {}", clause, prop, d), json!({"origin": c.origin}));
@@ -280,7 +316,7 @@ pub fn check_case(c: &LzmaCase, prop: &str, rep: &mut Report) -> bool {
         let legal = matches!(size, Some(s) if o.out.len() as u64 >= s) || e.v != Exp::Ok;
         if !legal {
             let d = "write returned Ok(0) for non-empty input while decoding was still in progress".to_string();
-            if ["C01", "C05", "C08"].contains(&prop) {
+            if ["C05"].contains(&prop) {
                 vs.push(d);
             } else {
                 rep.drift(format!("(clause of another property, seen while checking {}) {}", prop, d), json!({"origin": c.origin}));
@@ -295,7 +331,12 @@ pub fn check_case(c: &LzmaCase, prop: &str, rep: &mut Report) -> bool {
         let ml = c.memlimit.map(|m| m as usize);
         let (o2, cons2) = api::raw_lzma_reused(&data, c.props.lc, c.props.lp, c.props.pb, c.dict, c.raw_size, ml, &warm);
         if o2.verdict == Verdict::Panic {
-            vs.push(format!("panic on a reset LzmaDecoder: {}", o2.msg));
+            let d = format!("panic on a reset LzmaDecoder: {}", o2.msg);
+            if prop == "C14" || prop == "C07" {
+                vs.push(d);
+            } else {
+                rep.drift(format!("(C14 clause seen while checking {}) {}", prop, d), json!({"origin": c.origin}));
+            }
         } else if o2.verdict != o.verdict || (o2.verdict == Verdict::Ok && (o2.out != o.out || Some(cons2) != o.consumed)) {
             // "reset = new" is C14's text: under the other properties it is shape-tier information
             let d = format!("a reset LzmaDecoder that decoded another stream before gives {:?} ({} bytes) where a new one gives {:?} ({} bytes): {}", o2.verdict, o2.out.len(), o.verdict, o.out.len(), o2.msg);
@@ -673,7 +714,13 @@ pub fn walks(prop: &str, seed: u64, count: usize, nsyms: usize, rep: &mut Report
                 });
                 let good = matches!(r, crate::io::Caught::Done(Ok(()))) && sink.data == e.out;
                 rep.eval(hash_of(&(hex(&data[..data.len().min(64)]), api_name, "short-sink", i)), true);
-                if e.v == Exp::Ok && !good {
+                // (a raw constructor may refuse a dictionary below 4096 - see check_case; "the bytes delivered to the
+                // output sink are exactly the bytes the format defines" is C01's text for whatever io::Write the caller has)
+                let refused = api_name == "raw" && c.dict < 4096 && matches!(&r, crate::io::Caught::Done(Err(_))) && {
+                    use lzma_rs::decompress::raw::{LzmaDecoder, LzmaParams, LzmaProperties};
+                    LzmaDecoder::new(LzmaParams::new(LzmaProperties { lc: props.lc, lp: props.lp, pb: props.pb }, c.dict, c.raw_size), None).is_err()
+                };
+                if e.v == Exp::Ok && !good && !refused && ["C01", "C12"].contains(&prop) {
                     let mut cj = serde_json::to_value(&c).unwrap();
                     cj["kind"] = json!("lzma");
                     cj["sink"] = json!("accepts at most a few bytes per write call");
@@ -870,7 +917,8 @@ pub fn judge_entry_point(ep: &str, data: &[u8], opt: Opt, props: Props, built_wi
     }
     let mut vs: Vec<String> = vec![];
     for (clause, d) in tagged {
-        if owns_clause(prop, &clause) {
+        // the "resized" object relies on reset(Some(size)) doing what C14 says: its deviations are C14's
+        if owns_clause(prop, &clause) && (ep != "resized" || prop == "C14") {
             vs.push(d);
         } else {
             rep.drift(format!("(clause '{}' of another property, seen while checking {}) {}: {}", clause, prop, ep, d), json!({"entry_point": ep}));
@@ -971,8 +1019,8 @@ pub fn replay_entry_points(path: &str, prop: &str, seed: u64, rounds: usize, rep
                 continue;
             }
             let agrees = match tv {
-                "okT" => e.v == Exp::Ok && e.out.len() as u64 == t,
-                "ok0" => e.v == Exp::Ok && e.out.is_empty(),
+                "okT" => (e.v == Exp::Ok || e.class == "size-reached-coder-not-at-rest") && e.out.len() as u64 == t,
+                "ok0" => (e.v == Exp::Ok || e.class == "size-reached-coder-not-at-rest") && e.out.is_empty(),
                 "err" => e.v == Exp::Err,
                 _ => true,
             };
@@ -1100,17 +1148,26 @@ pub fn options_matrix(prop: &str, seed: u64, nprogs: usize, rep: &mut Report) {
 pub fn check_case_hdr(c: &LzmaCase, prop: &str, rep: &mut Report) -> bool {
     let ok = check_case(c, prop, rep);
     if ok && c.api == "oneshot" {
+        // C08: "the three header options consume 13, 13 and 5 header bytes respectively" - observed where the header is
+        // read and nothing else: LzmaParams::read_header on a slice (the position after the PAYLOAD is C11's clause)
         let data = c.bytes();
-        let e = c.expect(&data);
-        if e.v == Exp::Ok {
-            let o = run_real(c, &data);
-            if let (Some(ec), Some(oc)) = (e.consumed, o.consumed) {
-                if ec != oc {
+        let hl = c.opt.header_len();
+        if data.len() >= hl && Props::from_byte(data[0]).is_some() {
+            use lzma_rs::decompress::raw::LzmaParams;
+            let o = api::options(c.opt, None, false);
+            let mut rd = &data[..];
+            let r = crate::io::catch(|| LzmaParams::read_header(&mut rd, &o).is_ok());
+            let took = data.len() - rd.len();
+            match r {
+                crate::io::Caught::Done(true) if took != hl => {
                     let mut cj = serde_json::to_value(c).unwrap();
                     cj["kind"] = json!("lzma");
-                    rep.violation(prop, format!("consumed {} bytes in total, header ({}) + payload end at {}", oc, c.opt.header_len(), ec), cj);
-                    return false;
+                    if owns_clause(prop, "header-bytes") {
+                        rep.violation(prop, format!("reading the header under {:?} consumed {} bytes, the option defines {}", c.opt, took, hl), cj);
+                        return false;
+                    }
                 }
+                _ => {}
             }
         }
     }
@@ -1349,7 +1406,12 @@ pub fn fab_probes(prop: &str, seed: u64, n: usize, rep: &mut Report) {
                     }
                 };
                 if let Some(b) = bad_res {
-                    rep.violation(prop, format!("{} dict {}: {}", api_name, dict, b), json!({"kind": "fab", "seed": seed, "n": n, "api": api_name, "dict": dict, "props": p, "size": size, "data_hex": hex(&data), "expect": "err"}));
+                    if api_name.starts_with("stream") && !b.starts_with("panic") {
+                        // C09 is stated for the one-shot, LZMA2 / XZ and raw decoders; the incremental decoder is C05's
+                        rep.drift(format!("(Stream, seen while checking {}) {} dict {}: {}", prop, api_name, dict, b), json!({"api": api_name}));
+                    } else {
+    rep.violation(prop, format!("{} dict {}: {}", api_name, dict, b), json!({"kind": "fab", "seed": seed, "n": n, "api": api_name, "dict": dict, "props": p, "size": size, "data_hex": hex(&data), "expect": "err"}));
+                    }
                 }
             }
         }
@@ -1455,7 +1517,12 @@ pub fn fab_probes(prop: &str, seed: u64, n: usize, rep: &mut Report) {
                     Verdict::Err => if !is_prefix(&o.out, &valid_out) { Some("bytes beyond the valid prefix were delivered before the error".to_string()) } else { None },
                 };
                 if let Some(b) = bad_res {
-                    rep.violation(prop, format!("{} dict {}: {}", api_name, dict, b), json!({"kind": "fab", "seed": seed, "n": n, "api": api_name, "dict": dict, "distance": bad_d}));
+                    if api_name.starts_with("stream") && !b.starts_with("panic") {
+                        // C09 is stated for the one-shot, LZMA2 / XZ and raw decoders; the incremental decoder is C05's
+                        rep.drift(format!("(Stream, seen while checking {}) {} dict {}: {}", prop, api_name, dict, b), json!({"api": api_name}));
+                    } else {
+    rep.violation(prop, format!("{} dict {}: {}", api_name, dict, b), json!({"kind": "fab", "seed": seed, "n": n, "api": api_name, "dict": dict, "distance": bad_d}));
+                    }
                 }
             }
         }
@@ -1541,7 +1608,9 @@ pub fn fab_probes(prop: &str, seed: u64, n: usize, rep: &mut Report) {
         rep.count("fab_probe_carried");
         let _ = total2;
         match r {
-            crate::io::Caught::Panic(m) => rep.violation(prop, format!("raw decoder used twice: panic {}", m), json!({"kind": "fab", "seed": seed, "n": n, "api": "raw-carried", "data_hex": hex(&payload2), "expect": "err"})),
+            // (no listed property promises anything about decompress() on a used object that was not reset - except
+            // that it never fabricates bytes, which is what this probe is about)
+            crate::io::Caught::Panic(m) => rep.drift(format!("raw decoder used twice without reset: panic {}", m), json!({"api": "raw-carried"})),
             crate::io::Caught::Done((true, out)) if out == fabricated && !out.is_empty() => {
                 rep.violation(prop, format!("raw decoder used twice without reset: a repeat copy with carried distance {} was accepted after only {} bytes of output; {} fabricated bytes delivered", dist, k, out.len()),
                     json!({"kind": "fab", "seed": seed, "n": n, "api": "raw-carried", "data_hex": hex(&payload2), "expect": "err"}));
